@@ -243,6 +243,8 @@ def exec_case(pack, case, seed):
     nkind, nlen = case["name"]
     show, level = case["pa"][:2]
     lna = case["pa"][2] if len(case["pa"]) > 2 else True
+    # the form in which the application switches the field on: a bool, or another truthy value (a masked configuration word)
+    show_arg = (4 if show else 0) if (len(case["pa"]) > 3 and case["pa"][3] == "int") else show
     name_arg, name_raw = name_value(nkind, nlen, seed)
     mac_arg, mac_exp = mac_value(case["mac"], seed, nlen)
     feats = {"name": "none" if name_raw is None else "set", "pa": "on" if show else "off",
@@ -287,7 +289,7 @@ def exec_case(pack, case, seed):
 
     def set_show():
         nonlocal show_eff
-        r = guarded("show_pa_level", lambda: setattr(drv, "show_pa_level", show), (ValueError,))
+        r = guarded("show_pa_level", lambda: setattr(drv, "show_pa_level", show_arg), (ValueError,))
         if r is None:
             show_eff = bool(show)
         elif r == "ValueError":
@@ -428,6 +430,7 @@ def items_fields(tier, seed):
     nothing / a raw buffer / a one-element list sized limit-2..limit+2"""
     items = []
     pas = [(s, lv) for s in (False, True) for lv in PA_LEVELS] + [(True, lv, False) for lv in PA_LEVELS]
+    pas += [(True, PA_LEVELS[0], True, "int"), (False, PA_LEVELS[1], True, "int")]  # show_pa_level = 4 / = 0
     for ni, name in enumerate(name_domain()):
         cases = []
         for pa in pas:
